@@ -30,7 +30,8 @@ def random_texts(rng, count, multiline=True):
         for _ in range(nlines):
             k = rng.randint(0, 4)
             ind = ' ' * rng.choice([0, 0, 2, 4])
-            lines.append(ind + ' '.join(rng.choice(words) for _ in range(k)))
+            # trailing blanks (Markdown's two-space line break): stored as written, on every line
+            lines.append(ind + ' '.join(rng.choice(words) for _ in range(k)) + (rng.choice([' ', '  ']) if k and rng.random() < 0.25 else ''))
         yield '\n'.join(lines)
 
 
